@@ -232,6 +232,7 @@ class Comp(Term):
 class Lam(Term):
     params: Tuple[str, ...]
     body: Term
+    closure: Any = dfield(default=None, compare=False, hash=False, repr=False)  # (FunctionDef-like node, env, module, fi)
 
     def __repr__(self):
         return f'(lambda {",".join(self.params)}: {self.body!r})'
@@ -566,6 +567,8 @@ class Evaluator:
         self.max_paths = max_paths
         self.virtual_inline = virtual_inline
         self._const_memo: Dict[Tuple[str, str], Term] = {}
+        self._cur_state: Optional[_State] = None
+        self._cur_depth: int = 0
         self._const_busy: set = set()
         self._fn_by_key: Dict[str, FunctionInfo] = {f.key: f for f in model.all_functions()}
         self.unresolved_calls: List[str] = []
@@ -683,10 +686,10 @@ class Evaluator:
         return Opaque(f'global:{name}')
 
     # ------------------------------------------------------------ function
-    def run(self, fi: FunctionInfo, args: Optional[Dict[str, Term]] = None, depth: int = 0, self_cls: Optional[ClassInfo] = None) -> List[Outcome]:
+    def run(self, fi: FunctionInfo, args: Optional[Dict[str, Term]] = None, depth: int = 0, self_cls: Optional[ClassInfo] = None, base_env: Optional[Dict[str, Term]] = None) -> List[Outcome]:
         """Evaluate `fi` with parameters bound to `args` (missing ones become Sym,
         typed by their annotation when it names a package class)."""
-        env: Dict[str, Term] = {}
+        env: Dict[str, Term] = dict(base_env or {})
         a = fi.node.args
         params = a.posonlyargs + a.args + a.kwonlyargs
         ndef = len(a.defaults)
@@ -760,7 +763,7 @@ class Evaluator:
             bound[a.vararg.arg] = TupleT(())
         return bound
 
-    def inline_call(self, fi: FunctionInfo, recv: Optional[Term], args, kwargs, st: _State, depth: int) -> Optional[Term]:
+    def inline_call(self, fi: FunctionInfo, recv: Optional[Term], args, kwargs, st: _State, depth: int, base_env: Optional[Dict[str, Term]] = None) -> Optional[Term]:
         if fi.key in self._stack:
             return None
         bound = self.bind_call(fi, recv, args, kwargs, depth)
@@ -768,7 +771,7 @@ class Evaluator:
             return None
         self._stack.append(fi.key)
         try:
-            outs = self.run(fi, bound, depth + 1)
+            outs = self.run(fi, bound, depth + 1, base_env=base_env)
         finally:
             self._stack.pop()
         if not outs:
@@ -926,7 +929,15 @@ class Evaluator:
         if isinstance(s, (ast.Break, ast.Continue)):
             st.env['__flow__'] = Const('break' if isinstance(s, ast.Break) else 'continue')
             return [st]
-        if isinstance(s, (ast.FunctionDef, ast.ClassDef)):
+        if isinstance(s, ast.FunctionDef):
+            names = tuple(a.arg for a in s.args.posonlyargs + s.args.args)
+            lam = Lam(names, Opaque(f'local-def:{s.name}'), None)
+            env = dict(st.env)
+            env[s.name] = lam   # recursion
+            object.__setattr__(lam, 'closure', (s, env, mod, fi))
+            st.env[s.name] = lam
+            return [st]
+        if isinstance(s, ast.ClassDef):
             st.env[s.name] = Opaque(f'local-def:{s.name}')
             return [st]
         if isinstance(s, ast.Delete):
@@ -1221,6 +1232,10 @@ class Evaluator:
                 ci = self.m.classes.get(base.name)
                 if ci is not None and ci.is_enum and idx.value in ci.enum_members:
                     return EnumMember(ci.name, idx.value)
+            if isinstance(bd, DictT) and not store:
+                r = self.dict_lookup(bd, idx, Raises(Call(Ext('KeyError'), (idx,))))
+                if r is not None:
+                    return r
             return Sub(base, idx)
         if isinstance(e, ast.JoinedStr):
             parts: List[Term] = []
@@ -1240,7 +1255,9 @@ class Evaluator:
             names = tuple(a.arg for a in e.args.args)
             for n in names:
                 sub.env[n] = Sym(f'lam:{n}')
-            return Lam(names, self.expr(e.body, sub, mod, fi, depth))
+            fd = ast.FunctionDef(name='<lambda>', args=e.args, body=[ast.Return(value=e.body, lineno=e.lineno, col_offset=0)], decorator_list=[],
+                                 returns=None, lineno=e.lineno, col_offset=0, end_lineno=getattr(e, 'end_lineno', e.lineno))
+            return Lam(names, self.expr(e.body, sub, mod, fi, depth), (fd, dict(st.env), mod, fi))
         if isinstance(e, (ast.GeneratorExp, ast.ListComp, ast.SetComp)):
             sub = st.fork()
             gens = []
@@ -1327,6 +1344,22 @@ class Evaluator:
                 return Const(r if op == 'in' else not r)
         return Op(op, (a, b))
 
+    def dict_lookup(self, d: DictT, key: Term, default: Term) -> Optional[Term]:
+        """a constant table looked up with a key that is not constant: the same as an if-chain over its keys"""
+        if not d.items or len(d.items) > 12 or not all(isinstance(k, (Const, EnumMember)) for k, _ in d.items):
+            return None
+        if isinstance(key, (Const, EnumMember)):
+            for k, v in d.items:
+                if k == key:
+                    return v
+            return default
+        if isinstance(key, (TupleT, DictT, New, Lam, Template)):
+            return None
+        res = default
+        for k, v in reversed(d.items):
+            res = mk_ite(self.compare('==', key, k), v, res)
+        return res
+
     def refold(self, t: Term) -> Term:
         """re-apply constant folding after a substitution"""
         if isinstance(t, Op) and len(t.args) == 2 and t.op in ('is', 'is not', '==', '!=', '<', '<=', '>', '>=', 'in', 'not in'):
@@ -1362,6 +1395,20 @@ class Evaluator:
         return Op(op, tuple(out))
 
     def binop(self, op: str, a: Term, b: Term) -> Term:
+        sa_, sb_ = (a.value if isinstance(a, GlobalVal) else a), (b.value if isinstance(b, GlobalVal) else b)
+        if op in ('-', '|', '&', '^') and isinstance(sa_, TupleT) and isinstance(sb_, TupleT) and sa_.kind == 'set' and sb_.kind == 'set' \
+                and all(isinstance(x, (Const, EnumMember)) for x in sa_.items + sb_.items):
+            # algebra of literal sets
+            xs, ys = list(sa_.items), list(sb_.items)
+            if op == '-':
+                out = [x for x in xs if x not in ys]
+            elif op == '&':
+                out = [x for x in xs if x in ys]
+            elif op == '|':
+                out = xs + [y for y in ys if y not in xs]
+            else:
+                out = [x for x in xs if x not in ys] + [y for y in ys if y not in xs]
+            return TupleT(tuple(out), 'set')
         if isinstance(a, Const) and isinstance(b, Const):
             try:
                 x, y = a.value, b.value
@@ -1487,6 +1534,13 @@ class Evaluator:
                             return r
                     return key
                 return BoundMethod(base, m.key, name)
+            # a class-level constant read through the instance (no field, no method of that name)
+            if not store:
+                for c in bt.mro():
+                    if name in c.class_assigns:
+                        if any(name in sc.class_assigns or sc.field(name) is not None for sc in self.m.subclasses(bt, strict=True)):
+                            break   # a subclass may say otherwise
+                        return self.expr(c.class_assigns[name], _State(), c.module, None, depth)
             # defined only in subclasses
             return key
         return key
@@ -1600,10 +1654,42 @@ class Evaluator:
             return c
         if isinstance(func, Ext):
             self.resolved_calls += 1
-            return self.ext_call(func, args, kwargs)
-        if isinstance(func, Lam) and not star and not kwargs and len(args) == len(func.params):
+            prev = (self._cur_state, self._cur_depth)
+            self._cur_state, self._cur_depth = st, depth
+            try:
+                return self.ext_call(func, args, kwargs)
+            finally:
+                self._cur_state, self._cur_depth = prev
+        if isinstance(func, Lam) and not star:
             self.resolved_calls += 1
+            if func.closure is not None:
+                node, cenv, cmod, cfi = func.closure
+                pseudo = FunctionInfo(node.name, (cfi.qualname + '.' if cfi is not None else '') + f'<locals>.{node.name}@{node.lineno}', cmod, node, None, 'function')
+                if pseudo.key not in self._stack and depth < 8 and default_inline(pseudo, depth):
+                    r = self.inline_call(pseudo, None, args, kwargs, st, depth, base_env=cenv)
+                    if r is not None:
+                        return r
             return Call(func, args, kwargs)
+        if isinstance(func, Attr) and func.name == 'get' and not star and not kwargs and 1 <= len(args) <= 2:
+            bd = func.base.value if isinstance(func.base, GlobalVal) else func.base
+            if isinstance(bd, DictT):
+                r = self.dict_lookup(bd, args[0], args[1] if len(args) == 2 else NONE)
+                if r is not None:
+                    self.resolved_calls += 1
+                    return r
+        if isinstance(func, Call) and isinstance(func.func, Ext) and not star and not kwargs and len(args) == 1 and func.args:
+            # f = operator.methodcaller('m', *a) / attrgetter('x') / itemgetter(i);  f(obj)
+            n = func.func.name.split('.')[-1]
+            if n == 'methodcaller' and isinstance(func.args[0], Const) and isinstance(func.args[0].value, str):
+                self.resolved_calls += 1
+                return self.apply(self.attr(args[0], func.args[0].value, st, depth), tuple(func.args[1:]), tuple(func.kwargs), st, depth)
+            if n == 'attrgetter' and len(func.args) == 1 and isinstance(func.args[0], Const) and isinstance(func.args[0].value, str) and '.' not in func.args[0].value:
+                self.resolved_calls += 1
+                return self.attr(args[0], func.args[0].value, st, depth)
+            if n == 'itemgetter' and len(func.args) == 1 and isinstance(func.args[0], Const) and isinstance(args[0], TupleT) and isinstance(func.args[0].value, int) \
+                    and -len(args[0].items) <= func.args[0].value < len(args[0].items):
+                self.resolved_calls += 1
+                return args[0].items[func.args[0].value]
         if isinstance(func, Attr):
             # method on an untyped / external receiver
             bt = self.type_of(func.base)
@@ -1626,6 +1712,23 @@ class Evaluator:
             return TupleT(args[0].items, 'tuple')
         if n == 'tuple' and not args:
             return TupleT(())
+        if n == 'getattr' and len(args) == 2 and isinstance(args[1], Const) and isinstance(args[1].value, str) and self._cur_state is not None:
+            return self.attr(args[0], args[1].value, self._cur_state, self._cur_depth)
+        if n == 'map' and len(args) == 2 and not kwargs and self._cur_state is not None:
+            # map(f, xs) == (f(x) for x in xs)
+            f, xs = args
+            if isinstance(xs, TupleT) and xs.kind in ('tuple', 'list') and len(xs.items) <= 8 and not any(isinstance(x, Op) and x.op == '*' for x in xs.items):
+                return TupleT(tuple(self.apply(f, (x,), (), self._cur_state, self._cur_depth) for x in xs.items), 'tuple')
+            if isinstance(f, (Lam, FuncRef, BoundMethod, ClassRef)) or (isinstance(f, Call) and isinstance(f.func, Ext)) or (isinstance(f, Ext) and f.name in ('str', 'repr', 'int', 'float', 'bool')):
+                if not (isinstance(f, Ext) and f.name == 'str'):   # map(str, xs) is read by the printer rules as it is
+                    each = Sym('each:_m')
+                    return Comp('gen', self.apply(f, (each,), (), self._cur_state, self._cur_depth), (('_m', xs, ()),))
+        if n in ('frozenset', 'set') and len(args) == 1 and isinstance(args[0], ClassRef):
+            ci = self.m.classes.get(args[0].name)
+            if ci is not None and ci.is_enum and not ci.is_flag:
+                return TupleT(tuple(EnumMember(ci.name, m) for m in ci.enum_members), 'set')
+        if n in ('frozenset', 'set') and len(args) == 1 and isinstance(args[0], TupleT) and all(isinstance(x, (Const, EnumMember)) for x in args[0].items):
+            return TupleT(args[0].items, 'set')
         if n in ('tuple', 'list') and len(args) == 1 and isinstance(args[0], Comp) and len(args[0].gens) == 1 and args[0].kind in ('gen', 'list'):
             # a (filtered) comprehension over a short literal: one tuple per combination of filter outcomes
             tgt, it, ifs = args[0].gens[0]
